@@ -1,6 +1,7 @@
 package main
 
 import (
+	"os"
 	"regexp"
 	"fmt"
 	"go/ast"
@@ -1458,6 +1459,9 @@ func (fv *FuncVerifier) frameObligations(s2 *State, site token.Pos) {
 		ks = append(ks, k)
 	}
 	sort.Strings(ks)
+	if os.Getenv("GOVC_DEBUG") != "" {
+		fmt.Fprintln(os.Stderr, "DEBUG frame keys", fv.fn.Key, ks)
+	}
 	for _, k := range ks {
 		if !keyOK(k) {
 			continue
@@ -1468,11 +1472,17 @@ func (fv *FuncVerifier) frameObligations(s2 *State, site token.Pos) {
 			srt = hf.Sort
 		} else if h0, ok0 := fv.entry.heap[k]; ok0 {
 			srt = h0.Sort
+		} else if ks, ok1 := fv.keySorts[k]; ok1 {
+			// written inside a loop (havocked at its head) and never read afterwards: still a change to account for
+			srt = ks
 		} else {
 			continue
 		}
 		hf = fv.heapGet(s2, k, srt)
 		h0 := fv.heapGet(fv.entry, k, srt)
+		if os.Getenv("GOVC_DEBUG") != "" && strings.HasPrefix(k, "$sync") {
+			fmt.Fprintln(os.Stderr, "DEBUG frame", k, srt, "|", hf.S, "|", h0.S)
+		}
 		if hf.S == h0.S {
 			continue
 		}
